@@ -531,9 +531,10 @@ impl<'a> Checker<'a> {
                     self.push("C03", "extra", "store.substore(id)", format!("id {:?} resolved to a substore although none exists", id));
                 }
             }
-            // resolve_*_id must agree with the lookups
+            // resolve_*_id must agree with the lookups: the handle of the live item that carries the id, or an
+            // error (an id that still "resolves" to the slot of a removed item is a stale id-map entry)
             if let Some(got) = self.guarded("C03", "store.resolve_annotation_id", id, || {
-                store.resolve_annotation_id(id.as_str()).ok().and_then(|h| store.annotation(h)).map(|a| a.handle().as_usize())
+                store.resolve_annotation_id(id.as_str()).ok().map(|h| h.as_usize())
             }) {
                 let exp = match &tempid {
                     Some((l, n)) if *l == 'A' => m.annotations.iter().find(|a| a.live && a.handle == *n).map(|a| a.handle),
@@ -542,6 +543,30 @@ impl<'a> Checker<'a> {
                 };
                 if got != exp {
                     self.push("C03", "mismatch", "store.resolve_annotation_id", format!("id {:?}: expected {:?} got {:?}", id, exp, got));
+                }
+            }
+            if let Some(got) = self.guarded("C03", "store.resolve_resource_id", id, || {
+                store.resolve_resource_id(id.as_str()).ok().map(|h| h.as_usize())
+            }) {
+                let exp = match &tempid {
+                    Some((l, n)) if *l == 'R' => m.resources.iter().find(|a| a.live && a.handle == *n).map(|a| a.handle),
+                    Some(_) => None,
+                    None => m.find_resource_by_id(id).map(|u| m.resources[u].handle),
+                };
+                if got != exp {
+                    self.push("C03", "mismatch", "store.resolve_resource_id", format!("id {:?}: expected {:?} got {:?}", id, exp, got));
+                }
+            }
+            if let Some(got) = self.guarded("C03", "store.resolve_dataset_id", id, || {
+                store.resolve_dataset_id(id.as_str()).ok().map(|h| h.as_usize())
+            }) {
+                let exp = match &tempid {
+                    Some((l, n)) if *l == 'S' => m.datasets.iter().find(|a| a.live && a.handle == *n).map(|a| a.handle),
+                    Some(_) => None,
+                    None => m.find_dataset_by_id(id).map(|u| m.datasets[u].handle),
+                };
+                if got != exp {
+                    self.push("C03", "mismatch", "store.resolve_dataset_id", format!("id {:?}: expected {:?} got {:?}", id, exp, got));
                 }
             }
             // keys and data per live dataset
